@@ -270,6 +270,9 @@ func collectTVarFTypeWithSet(visited SSet, ft FType) []string {
 	case FType_FFunc:
 		fnt := _v9.Value
 		return slice.Collect(recurse, fnt.Targets)
+	case FType_FParamd:
+		pt := _v9.Value
+		return slice.Collect(recurse, pt.Targs)
 	default:
 		return slice.New[string]()
 	}
